@@ -52,6 +52,8 @@ type AssertOut struct {
 
 type Stats struct {
 	Paths, Queries, Unknown, SolverErrors int
+	CrossChecked, CrossUnknown, CrossDiffer int
+	CrossTime time.Duration
 	SolverTime                            time.Duration
 	Steps                                 int64
 	Wall                                  time.Duration
@@ -113,6 +115,10 @@ func (e *Explorer) worker(id int) {
 		e.Stats.Queries += in.solver.Queries
 		e.Stats.Unknown += in.solver.Unknown
 		e.Stats.SolverErrors += in.solver.Errors
+		e.Stats.CrossChecked += in.solver.CrossChecked
+		e.Stats.CrossUnknown += in.solver.CrossUnknown
+		e.Stats.CrossDiffer += in.solver.CrossDiffer
+		e.Stats.CrossTime += in.solver.CrossDur
 		e.Stats.SolverTime += in.solver.Dur
 		e.Stats.Steps += in.TotalSteps
 		for f, n := range in.enteredFns {
